@@ -277,7 +277,7 @@ def specs_of(case, obs):
         d = case["designs"][k] if k < len(case["designs"]) else None
         calls = [(v, kind) for (kk, v, kind) in obs["log"] if kk == k]
         script = list(d["script"]) if d else []
-        while len(script) < len(calls):
+        while len(script) < len(calls) + 6:       # the objective answers ok once its script is used up
             script.append("o")
         if d and d.get("vec") is not None:
             first = [float(x) for x in d["vec"]]
@@ -287,7 +287,14 @@ def specs_of(case, obs):
         chain = [first] + [v for v, _ in calls[1:]]
         if calls and calls[-1][1] in TRANSIENT:
             chain.append(o["vec"])          # the re-rolled vector that was never evaluated
-        specs.append({"prec": d["prec"] if d else 7, "script": script, "vecs": chain})
+        real = len(chain)
+        while len(chain) < len(script) + 1:
+            # should the model make more attempts than the code did (a divergence that the comparison then reports),
+            # it needs vectors to continue with: repeat the last one
+            chain.append(list(chain[-1]))
+        for v in chain:
+            costs_of(case, v)               # every vector of the chain has its table entry (pure function of the vector)
+        specs.append({"prec": d["prec"] if d else 7, "script": script, "vecs": chain, "real": real})
     return specs
 
 
